@@ -958,6 +958,83 @@ func runORD3(w *World, r *Result) int {
 	return n
 }
 
+// goroutineGenerates: a goroutine started by the command may only format and write files. It returns a reason when the
+// goroutine reaches an analysis or generator function other than the formatter cache (text would then be produced
+// concurrently), or appends to a variable declared outside it (results gathered in completion order, mutex or not).
+func goroutineGenerates(w *World, p *packages.Package, gs *ast.GoStmt) string {
+	info := p.TypesInfo
+	var body ast.Node
+	var lit *ast.FuncLit
+	switch f := ast.Unparen(gs.Call.Fun).(type) {
+	case *ast.FuncLit:
+		body, lit = f.Body, f
+	default:
+		if fn := calleeOf(info, gs.Call); fn != nil && w.Funcs[fn] != nil {
+			body = w.Funcs[fn].Decl.Body
+		}
+	}
+	if body == nil {
+		return ""
+	}
+	why := ""
+	seen := map[*FuncInfo]bool{}
+	var reach func(n ast.Node, inf *types.Info, depth int)
+	reach = func(n ast.Node, inf *types.Info, depth int) {
+		ast.Inspect(n, func(x ast.Node) bool {
+			call, ok := x.(*ast.CallExpr)
+			if !ok || why != "" {
+				return why == ""
+			}
+			fn := calleeOf(inf, call)
+			cf := w.Funcs[fn]
+			if cf == nil || cf.Decl.Body == nil {
+				return true
+			}
+			rel := w.Rel(fn.Pkg())
+			if rel != "cmd" {
+				sig, _ := fn.Type().(*types.Signature)
+				onFormatters := sig != nil && sig.Recv() != nil && strings.HasSuffix(sig.Recv().Type().String(), "generator.Formatters")
+				if !onFormatters {
+					why = "the goroutine reaches " + cf.Name + ": analysis or generation runs concurrently, so what is produced (shared caches, the order of the results) depends on the schedule"
+				}
+				return true
+			}
+			if !seen[cf] && depth < 5 {
+				seen[cf] = true
+				reach(cf.Decl.Body, cf.Pkg.TypesInfo, depth+1)
+			}
+			return true
+		})
+	}
+	reach(body, info, 0)
+	generates := why
+	why = ""
+	if lit != nil {
+		ast.Inspect(lit.Body, func(x ast.Node) bool {
+			as, ok := x.(*ast.AssignStmt)
+			if !ok || len(as.Lhs) != 1 || len(as.Rhs) != 1 {
+				return true
+			}
+			call, ok := as.Rhs[0].(*ast.CallExpr)
+			if !ok || !isBuiltinCall(info, call, "append") {
+				return true
+			}
+			if id := rootIdent(as.Lhs[0]); id != nil {
+				if o := objOf(info, id); o != nil && !(o.Pos() >= lit.Pos() && o.Pos() <= lit.End()) {
+					why = "the goroutine appends to " + id.Name + ", which is declared outside it: the elements end up in the order the goroutines finish (a mutex removes the race, not the dependence on the schedule)"
+					if generates != "" {
+						why += "; and " + generates
+					}
+				}
+			}
+			return true
+		})
+	}
+	// generation inside goroutines is not by itself order-dependent (results stored at the goroutine's own index are
+	// not): only the gathering in completion order is reported; shared package-level state is STATE-PKG's business
+	return why
+}
+
 // runORD4: goroutines and channel operations only in cmd.
 func runORD4(w *World, r *Result) int {
 	n := 0
@@ -972,7 +1049,13 @@ func runORD4(w *World, r *Result) int {
 					cnt++
 					fn := w.EnclosingFunc(p, s.Pos())
 					if rel == "cmd" {
-						r.ok("ORD-4", fn, fmt.Sprintf("%T", s), w.Pos(s.Pos()), "concurrency confined to the command: it runs after all text has been generated (only formatting and file writes are concurrent)", true)
+						if gs, isGo := s.(*ast.GoStmt); isGo {
+							if why := goroutineGenerates(w, p, gs); why != "" {
+								r.bad("ORD-4", fn, fmt.Sprintf("%T", s), w.Pos(s.Pos()), why)
+								return true
+							}
+						}
+						r.ok("ORD-4", fn, fmt.Sprintf("%T", s), w.Pos(s.Pos()), "concurrency confined to the command, and the goroutine appends to nothing declared outside it: no result is gathered in completion order", true)
 					} else {
 						r.bad("ORD-4", fn, fmt.Sprintf("%T", s), w.Pos(s.Pos()), "goroutine/channel operation in an analysis/generator package: scheduling may order effects differently between runs")
 					}
